@@ -77,7 +77,7 @@ def hostile(args):
                     keep = rnd.choice([100, 110, 130, 166, 200, 300, 330, 600])
                     body = bytearray(g[:20 + keep])
                     body[13:15] = struct.pack(">H", keep)
-                    body[23:25] = struct.pack(">H", keep - 5)          # the single message inside: seq(2) type(1) length(2) payload
+                    # (a single-message datagram carries seq(2) + payload, with no inner length field: the header's length field is all there is to adjust)
                     d = bytes(body) + struct.pack(">L", crc32(bytes(body)))
                 elif kind == "hdr-from-client-addr":
                     # spoofed source = an established client; well-formed header (any type, any sequence / ack numbers), garbage body
